@@ -46,6 +46,7 @@ mod imp {
     #[inline(always)] pub fn usize() -> usize { kani::any() }
     #[inline(always)] pub fn bool() -> bool { kani::any() }
     #[inline(always)] pub fn assume(c: bool) { kani::assume(c) }
+    #[inline(always)] pub fn char() -> char { kani::any() }
 }
 #[cfg(not(kani))]
 mod imp {
@@ -57,6 +58,9 @@ mod imp {
     pub fn usize() -> usize { native::next() as usize }
     pub fn bool() -> bool { native::next() & 1 == 1 }
     pub fn assume(c: bool) { if !c { std::panic::panic_any(native::AssumeFailed) } }
+    pub fn char() -> char {
+        match char::from_u32(native::next() as u32) { Some(c) => c, None => std::panic::panic_any(native::AssumeFailed) }
+    }
 }
 pub use imp::*;
 
